@@ -160,7 +160,7 @@ TRUSTED = [
 ASSUMPTIONS = [
     "requires: MRP products away from the 360-degree singularity (denominator 1 + |a|^2|b|^2 - 2 a.b != 0)",
     "requires: Euler pitch outside the +-1e-3 rad gimbal band (band tests decided False by the cell policy)",
-    "lemma L-SO3 (not machine-checked): every orthonormal DCM is R(q) for a unit quaternion q",
+    "lemma L-SO3 (machine-checked in Lean 4 / mathlib, lemmas/SO3Surj.lean + lemmas/SO3Cover.lean): every orthonormal DCM of determinant 1 is R(q) for a unit quaternion q, unique up to sign",
     "Shepperd divisors 4*b_k are nonzero on their own branch (b_k^2 >= 1/4 there) - stated, discharged for C07",
     "direct products are checked for a finite list of configurations (named in coverage.contracts), each for all inputs",
 ]
